@@ -1,7 +1,7 @@
 (* C09 — property theorems only.  Each is closed by `exact` of a lemma of C09_Proofs*.v. *)
 From Coq Require Import List NArith ZArith Bool.
-From Dae Require Import C09_Spec C09_Model C09_Check C09_ProofsF C09_ProofsP C09_Proofs C09_ProofsC C09_ProofsW C09_ProofsK C09_ProofsS C09_ProofsT C09_ProofsR.
-From Dae.gen Require Import C09_Route C09_TcpOwn C09_Pref.
+From Dae Require Import C09_Spec C09_Model C09_Check C09_ProofsF C09_ProofsP C09_Proofs C09_ProofsC C09_ProofsW C09_ProofsK C09_ProofsS C09_ProofsT C09_ProofsR C09_ProofsQ.
+From Dae.gen Require Import C09_Route C09_TcpOwn C09_Pref C09_KeyQtype.
 Import ListNotations.
 Open Scope N_scope.
 
@@ -174,6 +174,23 @@ Theorem C09_preference_wait_swap_refuted :
     pref_ok cN (pref_release false o mN mP) = false.
 Proof. exact C09_preference_wait_swap_refuted_proof. Qed.
 Print Assumptions C09_preference_wait_swap_refuted.
+
+(* The response-cache key, which is also the singleflight key, separates query types: for one name,
+   distinct 16-bit query types give distinct keys (cacheKey appends the decimal string of the whole type;
+   cachekey_full_qtype is extracted from the source), so a question never joins the flight or hits the
+   entry of another type (CAA 257 vs A 1, 284 vs AAAA 28, DLV 32769 vs A). *)
+Theorem C09_flight_key_injective_qtype :
+  forall name t1 t2,
+    flight_key cachekey_full_qtype name t1 = flight_key cachekey_full_qtype name t2 -> t1 = t2.
+Proof. exact C09_flight_key_injective_qtype_proof. Qed.
+Print Assumptions C09_flight_key_injective_qtype.
+
+(* A key built from the low byte of the type is refutable. *)
+Theorem C09_flight_key_low_byte_refuted :
+  exists name t1 t2,
+    t1 <> t2 /\ t1 < 65536 /\ t2 < 65536 /\ flight_key false name t1 = flight_key false name t2.
+Proof. exact C09_flight_key_low_byte_refuted_proof. Qed.
+Print Assumptions C09_flight_key_low_byte_refuted.
 
 (* ---- forwarder lifecycle (cachedDnsForwarder) ------------------------------------------------ *)
 
